@@ -285,12 +285,6 @@ catalogue! {
     model = |x| *x >= 0 && *x <= 100;
     class = |s| class_num_str(s, Some(0.0), Some(100.0));
 
-    #[nutype(sanitize(with = |x: i32| x.wrapping_abs()), validate(less_or_equal = 100), derive(Debug, Arbitrary))]
-    struct I32AbsThenLe(i32);
-    family = "integer";
-    model = |x| *x <= 100;
-    class = |s| class_num_str(s, None, Some(100.0));
-
     #[nutype(sanitize(with = |x: i32| x.wrapping_abs()), derive(Debug, Arbitrary))]
     struct I32AbsFree(i32);
     family = "integer";
@@ -846,8 +840,38 @@ pub fn registry_generic() -> Vec<ArbDecl> {
     }]
 }
 
+#[cfg(feature = "questionable")]
+mod questionable {
+    use super::*;
+    #[nutype(sanitize(with = |x: i32| x.wrapping_abs()), validate(less_or_equal = 100), derive(Debug, Arbitrary))]
+    pub struct I32AbsThenLe(i32);
+
+    pub fn registry_questionable() -> Vec<ArbDecl> {
+        vec![ArbDecl {
+            name: "I32AbsThenLe",
+            family: "integer",
+            text: "sanitize(with = |x: i32| x.wrapping_abs()), validate(less_or_equal = 100), derive(Debug, Arbitrary)",
+            run: |bytes: &[u8]| {
+                let mut u = Unstructured::new(bytes);
+                match <I32AbsThenLe as Arbitrary>::arbitrary(&mut u) {
+                    Ok(v) => {
+                        let consumed = bytes.len() - u.len();
+                        let inner: i32 = v.into_inner();
+                        let repr = format!("{:?}", inner);
+                        ArbOutcome::Value { valid: inner <= 100, class: class_num_str(&repr, None, Some(100.0)), repr, consumed }
+                    }
+                    Err(e) => ArbOutcome::ArbError(format!("{e:?}")),
+                }
+            },
+            classify: |s| class_num_str(s, None, Some(100.0)),
+        }]
+    }
+}
+
 pub fn all() -> Vec<ArbDecl> {
     let mut v = registry();
     v.extend(registry_generic());
+    #[cfg(feature = "questionable")]
+    v.extend(questionable::registry_questionable());
     v
 }
